@@ -6,7 +6,7 @@ lines = [l.split() for l in open(sys.argv[1]) if l.strip() and not l.startswith(
 workers = int(sys.argv[2]) if len(sys.argv) > 2 else 5
 def one(l):
     r = subprocess.run(["/venv/bin/python", "/verif/harness/seedquick.py", l[0], l[1]], stdout=subprocess.PIPE, stderr=subprocess.STDOUT, text=True)
-    return l[0].split("/")[2] + " " + r.stdout
+    return l[0].split("/")[-2] + " " + r.stdout
 with ThreadPoolExecutor(max_workers=workers) as ex:
     for out in ex.map(one, lines):
         print(out, flush=True)
